@@ -1,5 +1,6 @@
 import Abverif.Model.Session
 import Abverif.Model.SessSpec
+import Abverif.Model.SessTrace
 /-
 Line protocol for the session model.
 
@@ -8,6 +9,10 @@ Line protocol for the session model.
   request : `sessspec <s|d> <ev> …`         same script; per event the Spec verdicts the harness evaluates on the
                                             implementation trace (`Abverif.SessSpec.Spec.run`: the expected
                                             property observables, same rendering)
+  request : `sesstrace <s|d> <n> <ev>×n <obs>×n`   the trace Spec of C06/C10 (`Abverif.SessTrace.check`) applied to a
+                                            trace observed elsewhere: n event tokens, then the n observation lines
+                                            they produced (each one token, as printed by `sess` / the workers)
+  answer  : `ok` | `<event index>:<violation> …`
 
 Event tokens (no blanks inside; fields separated by `,`):
   open[;acts] closed[;acts] pump tick join leave disconnect
@@ -439,6 +444,158 @@ def specToks (sp : Abverif.SessSpec.Spec) : List (List SEv) → List (List SOut)
     let r := Abverif.SessSpec.Spec.run sp evs
     r.2.flatten :: specToks r.1 rest
 
+/-! ### reading observation lines back (for `sesstrace`) -/
+
+def parseExcName : String → Exc
+  | "ProtocolError" => .protocolError
+  | "TransportLost" => .transportLost
+  | "TypeError" => .typeError
+  | "AttributeError" => .attributeError
+  | "Exception" => .exception
+  | "AlreadyCalled" => .alreadyCalled
+  | "SendFailed" => .sendFailed
+  | "KeyError" => .keyError
+  | "AssertionError" => .assertionError
+  | "SerializationError" => .serializationError
+  | "PayloadExceededError" => .payloadExceeded
+  | _ => .other
+
+/-- `k0=D0.1.1=2`: entries are separated by `.`, but a details value contains one itself -/
+def parseObsKw (s : String) : List (Key × KwVal) :=
+  let parts := if s = "" then [] else s.splitOn "."
+  -- glue the pieces that carry no `=` to their predecessor
+  let glued := parts.foldl (fun (acc : List String) x =>
+    if x.contains '=' then acc ++ [x] else
+      match acc.reverse with
+      | [] => [x]
+      | l :: r => r.reverse ++ [l ++ "." ++ x]) []
+  glued.filterMap (fun e =>
+    match e.splitOn "=" with
+    | [k, v] => do
+      let k ← k.toNat?
+      match v.toList with
+      | 'D' :: _ =>
+        (match (tl v).splitOn "." with
+         | [o, p] => do pure (k, .callDetails (← o.toNat?) (p == "1"))
+         | _ => none)
+      | 'd' :: _ => (tl v).toNat?.map (fun o => (k, .details o))
+      | _ => v.toNat?.map (fun x => (k, .v x))
+    | _ => none)
+
+def parseHookName : String → Option Hook
+  | "onConnect" => some .onConnect | "onJoin" => some .onJoin | "onLeave" => some .onLeave
+  | "onDisconnect" => some .onDisconnect | "onChallenge" => some .onChallenge | "onWelcome" => some .onWelcome
+  | _ => none
+
+def parseObsEvName : String → Option ObsEv
+  | "connect" => some .connect | "join" => some .join | "ready" => some .ready | "leave" => some .leave
+  | "disconnect" => some .disconnect
+  | _ => none
+
+def parseSentMsg (s : String) : OutMsg :=
+  match s.splitOn "," with
+  | ["HELLO"] => { typ := .hello }
+  | ["GOODBYE"] => { typ := .goodbye }
+  | ["ABORT"] => { typ := .abort }
+  | ["AUTHENTICATE"] => { typ := .authenticate }
+  | ["YIELD", r, o, a, k] =>
+    { typ := .yield_, req := r.toNat?.getD 0, opts := if o = "{progress=T}" then [(.progress, .b true)] else [],
+      args := ((parseArgs a).join).getD [], kwargs := ((parseKwargs k).join).getD [] }
+  | ["ERROR", r, u, a, k] =>
+    { typ := .error, req := r.toNat?.getD 0, uri := u.toNat?.getD 0, args := ((parseArgs a).join).getD [],
+      kwargs := ((parseKwargs k).join).getD [] }
+  | "CANCEL" :: _ => { typ := .cancel }
+  | "CALL" :: r :: _ => { typ := .call, req := r.toNat?.getD 0 }
+  | "PUBLISH" :: r :: _ => { typ := .publish, req := r.toNat?.getD 0 }
+  | "SUBSCRIBE" :: r :: _ => { typ := .subscribe, req := r.toNat?.getD 0 }
+  | "UNSUBSCRIBE" :: r :: _ => { typ := .unsubscribe, req := r.toNat?.getD 0 }
+  | "REGISTER" :: r :: _ => { typ := .register, req := r.toNat?.getD 0 }
+  | "UNREGISTER" :: r :: _ => { typ := .unregister, req := r.toNat?.getD 0 }
+  | _ => { typ := .cancel }
+
+/-- one observation token; what the trace Spec does not read becomes `unmodelled` -/
+def parseObsTok (t : String) : SOut :=
+  match t.splitOn ":" with
+  | ["hook", r] =>
+    (match r.splitOn "," with
+     | [h] => (parseHookName h).elim .unmodelled (fun h => .hook h 0)
+     | [h, a] => (parseHookName h).elim .unmodelled (fun h => .hook h (a.toNat?.getD 0))
+     | _ => .unmodelled)
+  | ["fire", e] => (parseObsEvName e).elim .unmodelled .fire
+  | ["raise", e] => .raise_ (parseExcName e)
+  | ["caught", e] => .caught (parseExcName e)
+  | ["ret", "none"] => .retNone
+  | ["ret", f] => f.toNat?.elim .unmodelled .ret
+  | ["uerr"] => .userError
+  | ["close"] => .transportClose
+  | "send" :: rest => .send (parseSentMsg (join ":" rest))
+  | "sendfail" :: _ :: rest => .sendFail (parseSentMsg (join ":" rest)) .other
+  | ["done", r] =>
+    (match r.splitOn "=" with
+     | f :: v :: _ =>
+       (match f.toNat? with
+        | none => .unmodelled
+        | some f =>
+          if v.startsWith "reg" then .complete f (.value (.registration ((v.drop 3).toNat?.getD 0)))
+          else if v.startsWith "closed" then .complete f (.closed ((v.drop 6).toNat?.getD 0))
+          else .complete f (.value .none_))
+     | _ => .unmodelled)
+  | ["ep", r] =>
+    (match r.splitOn "," with
+     | [req, obj, h, a, k] =>
+       (match req.toNat?, obj.toNat?, h.toNat? with
+        | some req, some obj, some h => .endpoint req obj h (((parseArgs a).join).getD []) (parseObsKw (tl k))
+        | _, _, _ => .unmodelled)
+     | _ => .unmodelled)
+  | _ => .unmodelled
+
+def parseObsLine (l : String) : List SOut :=
+  if l = "-" then [] else (l.splitOn ";").map parseObsTok
+
+def rHook : Hook → String
+  | .onConnect => "onConnect" | .onJoin => "onJoin" | .onLeave => "onLeave" | .onDisconnect => "onDisconnect"
+  | .onChallenge => "onChallenge" | .onWelcome => "onWelcome"
+
+def rObsEv : ObsEv → String
+  | .connect => "connect" | .join => "join" | .ready => "ready" | .leave => "leave" | .disconnect => "disconnect"
+
+def rViol : Abverif.SessTrace.Viol → String
+  | .hookOrder h => "hook-order," ++ rHook h
+  | .obsOrder e => "observer-order," ++ rObsEv e
+  | .leaveUnexpected => "leave-unexpected"
+  | .leaveMissing => "leave-missing"
+  | .gate => "gate"
+  | .goodbyeTwice => "goodbye-twice"
+  | .goodbyeUnanswered => "goodbye-unanswered"
+  | .goodbyeEchoed => "goodbye-echoed"
+  | .pending f => s!"pending,{f}"
+  | .apiAfterEnd => "api-after-end"
+  | .replyUnsolicited r => s!"reply-unsolicited,{r}"
+  | .noReply r => s!"no-reply,{r}"
+  | .lateProgress r => s!"late-progress,{r}"
+  | .progressUnasked r => s!"progress-unasked,{r}"
+  | .endpointArgs r => s!"endpoint-args,{r}"
+  | .invocationNotRejected r => s!"invocation-not-rejected,{r}"
+  | .cancelledYields r => s!"cancelled-yields,{r}"
+
+def handleTrace (mode : Sched) (evs : List (List SEv)) (obs : List (List SOut)) : String :=
+  -- index violations by token, not by event
+  let rec go (i : Nat) (σ : Abverif.SessTrace.Scan) : List (List SEv) → List (List SOut) → List String
+    | [], _ => []
+    | es :: rest, obs =>
+      let o := obs.headD []
+      let tr : List (SEv × List SOut) := match es with
+        | [] => []
+        | [e] => [(e, o)]
+        | e :: e2 :: _ => [(e, []), (e2, o)]
+      let r := tr.foldl (fun (acc : Abverif.SessTrace.Scan × List Abverif.SessTrace.Viol) x =>
+        let r := Abverif.SessTrace.stepCheck mode acc.1 x.1 x.2
+        (r.1, acc.2 ++ r.2)) (σ, [])
+      r.2.map (fun v => s!"{i}:{rViol v}") ++ go (i + 1) r.1 rest obs.tail
+  match go 0 {} evs obs with
+  | [] => "ok"
+  | l => join " " l
+
 def handle : List String → Option String
   | "sess" :: mode :: evs => do
       let mode ← parseMode mode
@@ -448,6 +605,12 @@ def handle : List String → Option String
       let _ ← parseMode mode
       let evs ← evs.mapM parseEv
       pure (join " | " ((specToks {} evs).map rObs))
+  | "sesstrace" :: mode :: n :: rest => do
+      let mode ← parseMode mode
+      let n ← n.toNat?
+      if rest.length != 2 * n then none else
+      let evs ← (rest.take n).mapM parseEv
+      pure (handleTrace mode evs ((rest.drop n).map parseObsLine))
   | _ => none
 
 end Abverif.Drv.Session
